@@ -498,6 +498,10 @@ def teamCrossover (lhs rhs : Team) (d : Nat → XDraw) : Team :=
   (List.range lhs.length).map (fun k =>
     crossover (lhs.getD k teamMutation.default_ind) (rhs.getD k teamMutation.default_ind) (d k))
 
+/-- `team<T>::inc_age()`: every member ages -/
+def teamIncAge (t : Team) : Team :=
+  (List.range t.length).map (fun k => incAge (t.getD k teamMutation.default_ind))
+
 def TeamRandomStep (ss : SymSet) (rows pl : Nat) (post : Team) : Prop :=
   ∀ x ∈ post, RandomStep ss rows pl x
 
@@ -511,6 +515,29 @@ def TeamCrossStep (lhs rhs post : Team) : Prop :=
   ∀ k, k < lhs.length →
     CrossStep (lhs.getD k teamMutation.default_ind) (rhs.getD k teamMutation.default_ind)
       (post.getD k teamMutation.default_ind)
+
+def TeamIncAgeStep (pre post : Team) : Prop :=
+  post.length = pre.length ∧
+  ∀ k, k < pre.length →
+    IncAgeStep (pre.getD k teamMutation.default_ind) (post.getD k teamMutation.default_ind)
+
+/-- the same individual as far as it can be observed (shape, entry point, age, flavour, genes) -/
+def SameInd (pre post : Ind) : Prop :=
+  SameShape pre post ∧ post.best = pre.best ∧ post.age = pre.age ∧ post.xover = pre.xover ∧
+  SameGenes pre post
+
+/-- `team(std::vector<T>)`: the members are the given individuals, in order -/
+def TeamOfMembersStep (pre post : Team) : Prop :=
+  post.length = pre.length ∧
+  ∀ k, k < pre.length →
+    SameInd (pre.getD k teamMutation.default_ind) (post.getD k teamMutation.default_ind)
+
+instance (pre post) : Decidable (TeamIncAgeStep pre post) := by
+  unfold TeamIncAgeStep; infer_instance
+instance (pre post : Ind) : Decidable (SameInd pre post) := by
+  unfold SameInd SameShape; infer_instance
+instance (pre post) : Decidable (TeamOfMembersStep pre post) := by
+  unfold TeamOfMembersStep; infer_instance
 
 instance (ss rows pl post) : Decidable (TeamRandomStep ss rows pl post) := by
   unfold TeamRandomStep; infer_instance
@@ -554,6 +581,8 @@ inductive TReachable (ss : SymSet) (rows : Nat) : Team → Prop
   | crossover {lhs rhs post : Team} :
       TReachable ss rows lhs → TReachable ss rows rhs → rhs.length = lhs.length →
       TeamCrossStep lhs rhs post → TReachable ss rows post
+  | incAge {pre post : Team} :
+      TReachable ss rows pre → TeamIncAgeStep pre post → TReachable ss rows post
 
 
 /-- individuals produced by any finite sequence of the model operators, every draw being an
@@ -597,6 +626,7 @@ inductive TReachableF (ss : SymSet) (rows : Nat) : Team → Prop
         XDrawOK (if (d k).b then rhs.getD k teamMutation.default_ind
                  else lhs.getD k teamMutation.default_ind) (d k)) →
       TReachableF ss rows (teamCrossover lhs rhs d)
+  | incAge {t : Team} : TReachableF ss rows t → TReachableF ss rows (teamIncAge t)
 
 
 end Vita.C02
